@@ -69,8 +69,27 @@ def on_call(interp, name, f, args, kwargs):
         for t in ts:
             interp2.types[t] = 'str'
         return TupleV(ts)
+    def pos(which):
+        def f(interp2, a, kw):
+            n = a[0] if a else K(0)
+            if not isinstance(n, K):
+                interp2.inexact('%s() with a non-constant index' % which)
+            if which == 'span':
+                lo = T('mpos', rt, MODES[name], subject, 'start', n)
+                hi = T('mpos', rt, MODES[name], subject, 'end', n)
+                interp2.types[lo] = interp2.types[hi] = 'int'
+                return TupleV([lo, hi])
+            t = T('mpos', rt, MODES[name], subject, which, n)
+            interp2.types[t] = 'int'
+            return t
+        return f
     mo.fields['group'] = AbsFunc('group', group)
     mo.fields['groups'] = AbsFunc('groups', groups)
+    mo.fields['start'] = AbsFunc('start', pos('start'))
+    mo.fields['end'] = AbsFunc('end', pos('end'))
+    mo.fields['span'] = AbsFunc('span', pos('span'))
+    mo.fields['string'] = args[1]
+    mo.fields['__getitem__'] = AbsFunc('__getitem__', group)
     return mo
 
 
@@ -95,6 +114,19 @@ def hook(v, val, hooks=None):
             raise Raised('re.error')
         except TypeError:
             raise Raised('TypeError')
+    if isinstance(v, T) and v.op == 'mpos':
+        rt, mode, subject, which, n = v.args
+        s = ev(subject, val, hooks)
+        try:
+            m = getattr(re.compile(rt.args[0], rt.args[1]), mode)(s)
+        except TypeError:
+            raise Raised('TypeError')
+        if m is None:
+            raise Raised('AttributeError')
+        try:
+            return getattr(m, which)(n.v)
+        except IndexError:
+            raise Raised('IndexError')
     if isinstance(v, T) and v.op in ('rxmatch', 'group'):
         rt, mode, subject = v.args[0], v.args[1], v.args[2]
         s = ev(subject, val, hooks)
